@@ -141,9 +141,9 @@ LATTICE = [0, 1, -1, 4, 3, 64, 65, 100000, 100001] + [2 ** i for i in range(1, 1
 
 
 def learn(cls, field, ks, integral):
-    """breakpoints of the accepted sets of both paths: the candidates, refined by bisection wherever the verdict changes
-    strictly inside an interval between two candidates (so the result does not depend on where the source keeps its
-    constants, or whether it has literals at all)"""
+    # breakpoints of the accepted sets of both paths: the candidates, refined by bisection wherever the verdict changes
+    # strictly inside an interval between two candidates (so the result does not depend on where the source keeps its
+    # constants, or whether it has literals at all)
     memo = {}
 
     def v(x, path):
